@@ -161,7 +161,9 @@ def units(ck, prog):
         rv = s["rv"]
         if rv["k"] == "agg" and rv.get("adt", "").endswith("LargePolyConstraint"):
             ops = dict(zip(rv["fields"], rv["ops"]))
-            w = g.walk(ops=[ops["step_offset"]], at=(b, i))
+            # the shift may live in a field of its own (`step_offset`) or be applied to the stored values once (a rotation in the
+            # constructor): either way what is stored must derive from the assertion's first step and the CE blowup
+            w = g.walk(ops=[ops["step_offset"]] if "step_offset" in ops else list(rv["ops"]), at=(b, i))
             ns = g.callee_names_in(w)
             ck.ob("U", "LargePolyConstraint::new:step_offset", any(n.endswith("BoundaryConstraint::poly_offset") for n in ns)
                   and any(n.endswith("Air::ce_blowup_factor") for n in ns),
